@@ -320,6 +320,7 @@ fn render_fn(ctx: &mut Ctx, unit: &Unit, fs: &FnSpec, found: &FoundFn, in_trait_
     }
     body = unwrap_it_labels(body);
     for (a, _) in &fs.at { if !n.used_anchors.contains(a) { ctx.problems.push(format!("LOST-ANCHOR `{}` in {} (available: {})", a, display, n.avail_anchors.iter().cloned().collect::<Vec<_>>().join(" "))); } }
+    for c in fs.letsplit.chunks(2) { if c.len() == 2 && !n.used_anchors.contains(&format!("letsplit {}", c[0])) { ctx.problems.push(format!("LOST-ANCHOR @letsplit {} in {}", c[0], display)); } }
     for e in &n.errors { ctx.problems.push(format!("UNSUPPORTED {}", e)); }
     ctx.canaries.extend(n.canaries.iter().cloned());
     let meta = json!({
